@@ -1275,6 +1275,100 @@ def check_path_payoffs(ctx, torch, I, g, gtraces):
                     break
 
 
+# ---------- the clock of the local volatility model: every buffer uses the grid i*dt of the underlier
+# LocalVolatilityStock hands sigma_fn(time, spot) the time of the step.  With a sigma_fn that REVEALS its time argument (c + a*t, or
+# c + a*t + b*spot) the time elapsed can be read off the volatility buffer: (volatility[:, i] - c - b*spot[:, i]) / a must be i*dt, so that
+# elapsed time + time to maturity at step i is (T-1)*dt for every i - for the buffer, its square (variance) and the features
+# 'volatility' / 'variance' of a derivative on it.  Deterministic corpus (non-default dt, integer and non-integer M/dt) + random cases.
+# Tolerance: the time is one rounded product i*dt, sigma two or three rounded operations on values <= |c|+|a t|+|b s|, the elapsed
+# time two more; 16 ulp of that magnitude (a wrong clock is off by i*|dt - dt'| >= 1e-3*dt).
+
+LV_SIGMAS = [("t", 0.0, 1.0, 0.0), ("1+t", 1.0, 1.0, 0.0), ("0.2+t/2", 0.2, 0.5, 0.0), ("0.1+t+s/8", 0.1, 1.0, 0.125)]
+
+
+def lv_corpus():
+    out = []
+    for dt in (1 / 365, 1 / 12, 0.1, 1 / 250, 0.01, 1 / 52):
+        for r in (1, 3, 4.5, 20):
+            out.append((dt, r))
+    return out
+
+
+def check_local_vol_clock(ctx, torch, I, g):
+    from pfhedge.features import get_feature
+    cases = [(dt, r, LV_SIGMAS[i % len(LV_SIGMAS)], "corpus") for i, (dt, r) in enumerate(lv_corpus())]
+    for _ in range(30 if ctx.tier == "quick" else 400):
+        cases.append((g.choice(DTS + [0.05, 0.2, 1 / 256]), g.choice([0, 1, 2, 3, 5, 8, 13, 30]) + g.choice([0, 0, 0.5, 0.25, 0.9]),
+                      g.choice(LV_SIGMAS), "random"))
+    for dt, r, (sname, c, a, b), kind in cases:
+        dtype = g.choice([None, torch.float64])
+        N = g.choice([1, 3, 8])
+        via = g.choice(["stock", "derivative", "derivative"])
+        opt = g.choice(OPTS)
+        m = r * dt
+        case = {"local_vol_clock": True, "dt": dt, "M": m, "M/dt": r, "sigma_fn(t, s)": sname, "via": via, "option": opt if via == "derivative" else None,
+                "n_paths": N, "dtype": str(dtype), "kind": kind}
+        p = I.LocalVolatilityStock(lambda time, spot, c=c, a=a, b=b: c + a * time + b * spot, dt=dt, dtype=dtype)
+        d = getattr(I, opt)(p, maturity=m)
+        if via == "stock":
+            st, v, _ = call_impl(p.simulate, n_paths=N, time_horizon=m)
+        else:
+            st, v, _ = call_impl(d.simulate, n_paths=N)
+        if st != "ok":
+            ctx.fail("simulate raised", case, key="simulate:LocalVolatilityStock:raise", detail=v)
+            continue
+        spot, vol = p.spot, p.volatility
+        T = spot.size(1)
+        ctx.case(case, T > 1, tag="local_vol_clock")
+        ctx.traces += 1
+        ctx.stats[f"local_vol_clock:{kind}:{via}:dt={'default' if dt == 1 / 250 else 'other'}"] += 1
+        if tuple(spot.shape) != (N, T) or tuple(vol.shape) != (N, T) or T not in expected_points(m, dt):
+            ctx.fail("number of simulated time points differs from ceil(M/dt)+1", case, key="primary.simulate:n_steps=ceil(M/dt+1)",
+                     detail={"spot": list(spot.shape), "volatility": list(vol.shape), "expected": sorted(expected_points(m, dt))})
+            continue
+        u = 2.0 ** (-52 if spot.dtype == torch.float64 else -23)
+        with torch.no_grad():
+            ttm = d.time_to_maturity(None).to(torch.float64)
+            s64, v64 = spot.to(torch.float64), vol.to(torch.float64)
+            mag = abs(c) + a * (T - 1) * dt + b * s64.abs() + v64.abs() + (T - 1) * dt
+            tol = 16 * u * mag
+            steps = torch.arange(T, dtype=torch.float64)
+            views = [("volatility buffer", v64, 1.0)]
+            st, var, _ = call_impl(lambda: p.variance)
+            if st == "ok" and tuple(var.shape) == (N, T) and bool((var >= 0).all()):
+                views.append(("variance buffer", var.to(torch.float64).sqrt(), 2.0))
+            else:
+                ctx.fail("the variance of a LocalVolatilityStock is not an (N, T) tensor", case, key="local_vol:variance:shape", detail=var if st != "ok" else list(var.shape))
+            if via == "derivative":
+                for name, k in (("volatility", 1.0), ("variance", 2.0)):
+                    f = get_feature(name).of(d)
+                    st, fall, _ = call_impl(f.get, None)
+                    cols = []
+                    for i in sorted({0, T - 1, g.randint(0, T - 1)}):
+                        st2, fi, _ = call_impl(f.get, i)
+                        cols.append((i, st2, fi))
+                    if st != "ok" or tuple(fall.shape) != (N, T, 1) or any(s2 != "ok" or tuple(fi.shape) != (N, 1, 1) or not torch.equal(fi[:, 0, 0], fall[:, i, 0]) for i, s2, fi in cols):
+                        ctx.fail(f"feature '{name}' of a derivative on a LocalVolatilityStock: get(None) is not (N, T, 1) or get(i) is not its column i", case,
+                                 key=f"feature.{name}:local-vol:steps", detail=fall if st != "ok" else list(fall.shape))
+                        continue
+                    fv = fall[:, :, 0].to(torch.float64)
+                    views.append((f"feature '{name}'", fv if name == "volatility" else fv.clamp(min=0.0).sqrt(), k))
+            for what, sig, k in views:
+                elapsed = (sig - c - b * s64) / a
+                bad = ((elapsed + ttm - (T - 1) * dt).abs() > k * tol / a) | ((elapsed - steps * dt).abs() > k * tol / a)
+                if k == 2.0 and b != 0.0:  # a spot-dependent sigma may be negative on a path: the variance only knows |sigma|
+                    other = (-sig - c - b * s64) / a
+                    bad &= ((other + ttm - (T - 1) * dt).abs() > k * tol / a) | ((other - steps * dt).abs() > k * tol / a)
+                bad &= torch.isfinite(sig) & torch.isfinite(s64) & torch.isfinite(v64)  # an exploded path (sigma growing with the spot, coarse dt) says nothing
+                if bool(bad.any()):
+                    n_, i_ = [int(x) for x in bad.nonzero()[0]]
+                    ctx.fail(f"LocalVolatilityStock with sigma_fn(t, s) = {sname}: the time read off the {what} at step i is not i*dt - "
+                             "time elapsed + time to maturity differs from (T-1)*dt, the volatility sits on another time grid than time to maturity",
+                             case | {"T": T, "i": i_, "path": n_}, key=f"local_vol:clock:{what.split()[0].replace(chr(39), '')}:{what.split()[-1].replace(chr(39), '')}",
+                             detail={"elapsed_from_volatility": float(elapsed[n_, i_]), "i*dt": i_ * dt, "time_to_maturity": float(ttm[n_, i_]), "(T-1)*dt": (T - 1) * dt})
+                    break
+
+
 def check(ctx):
     torch, pfhedge = import_impl()
     import pfhedge.instruments as I
@@ -1578,6 +1672,7 @@ def check(ctx):
     check_feature_steps(ctx, torch, I, g, freqs, fmeta)
     check_hedge_values(ctx, torch, I, g, gtraces)
     check_path_payoffs(ctx, torch, I, g, gtraces)
+    check_local_vol_clock(ctx, torch, I, g)
     # ---------- time_to_maturity replica (float64 instruments: bit-exact)
     treqs, tmeta = [], []
     for _ in range(150 if ctx.tier == "quick" else 2000):
